@@ -265,7 +265,7 @@ func genC18Case() *rapid.Generator[C18Case] {
 		}
 		c.Mode = rapid.SampledFrom([]string{"pause", "pause", "body-read", "body-read", "failed"}).Draw(t, "mode")
 		c.Pause = rapid.SampledFrom([]string{"state.write-unlocked", "state.write-unlocked", "reload.after-loadauth", "reload.after-updateall"}).Draw(t, "pause")
-		c.Fail = rapid.SampledFrom([]string{"removed", "directory", "garbage", "uncompilable", "secret-missing", "restart-listen", "restart-max-body", "restart-prefix", "truncated"}).Draw(t, "fail")
+		c.Fail = rapid.SampledFrom([]string{"removed", "directory", "garbage", "uncompilable", "secret-missing", "secret-missing-adaptive", "secret-missing-ratelimit", "restart-listen", "restart-max-body", "restart-prefix", "truncated"}).Draw(t, "fail")
 		return c
 	})
 }
@@ -337,6 +337,16 @@ func runC18(c C18Case, tolerate bool) *fOutcome {
 		case "secret-missing":
 			_ = os.Unsetenv("VERIF_C18_MISSING")
 			content = []byte(newText + "\n/needs-secret {\n  auth hmac env:VERIF_C18_MISSING\n  pull { path /pull/needs }\n}\n")
+		case "secret-missing-adaptive":
+			// the secret cannot be loaded, and the same file tightens the admission guardrail to
+			// "refuse as soon as anything is queued": none of it may take effect
+			_ = os.Unsetenv("VERIF_C18_MISSING")
+			content = []byte(c.New.text("defaults {\n  adaptive_backpressure {\n    enabled on\n    min_total 1\n    queued_percent 1\n    ready_lag 10m\n    oldest_queued_age 10m\n    sustained_growth off\n  }\n}\n") +
+				"\n/needs-secret {\n  auth hmac env:VERIF_C18_MISSING\n  pull { path /pull/needs }\n}\n")
+		case "secret-missing-ratelimit":
+			_ = os.Unsetenv("VERIF_C18_MISSING")
+			content = []byte(strings.Replace(newText, "ingress { listen 127.0.0.1:0 }", "ingress {\n  listen 127.0.0.1:0\n  rate_limit {\n    rps 0.001\n    burst 1\n  }\n}", 1) +
+				"\n/needs-secret {\n  auth hmac env:VERIF_C18_MISSING\n  pull { path /pull/needs }\n}\n")
 		case "restart-listen":
 			content = []byte(strings.Replace(newText, "ingress { listen 127.0.0.1:0 }", "ingress { listen 127.0.0.1:1 }", 1))
 		case "restart-max-body":
